@@ -35,6 +35,9 @@ Script ==
     [] ScriptName = "collapsing_pending" ->
          << <<"gen", 1, [c |-> "addall", m |-> 0, ms |-> {1, 2}]>>, <<"dlv", 2, 1>>, <<"gen", 2, R(1)>>,
             <<"dlv", 3, 1>>, <<"gen", 3, A(2)>>, <<"gen", 3, R(2)>>, <<"dlv", 4, 2>>, <<"dlv", 4, 3>> >>
+    \* four actors witness the same member concurrently (shapes that need four distinct actors on one element)
+    [] ScriptName = "four_adders" ->
+         << <<"gen", 1, A(1)>>, <<"gen", 2, A(1)>>, <<"gen", 3, A(1)>>, <<"gen", 4, A(1)>> >>
 ScriptInit == InitAfter(Script)
 
 ProjB(s) == [clock |-> s.clock, entries |-> s.entries, deferred |-> s.deferred]
